@@ -220,6 +220,7 @@ func main() {
 	)
 
 	// ------------------------------------------------------------------ path = commitBlock
+	tPhase := time.Now()
 	type unit struct {
 		fork int
 		idxs []int
@@ -292,6 +293,8 @@ func main() {
 	if doneBlocks < int64(len(units)) {
 		r.NotExhaustive(fmt.Sprintf("deadline: %d of %d block units of path=commitBlock finished", doneBlocks, len(units)))
 	}
+	r.Set("phase_commitBlock_wall_s", time.Since(tPhase).Seconds())
+	tPhase = time.Now()
 	// ------------------------------------------------------------------ path = ApplyTransaction
 	progs := append([][]int{nil}, allPrograms(maxLen)...) // unit 0: the program-independent targets
 	radices := []int{nPrices, nGas, nValues, nNonces, nSenders, nForks}
@@ -379,6 +382,7 @@ func main() {
 		r.NotExhaustive(fmt.Sprintf("deadline: %d of %d program units of path=ApplyTransaction finished", doneUnits, len(progs)))
 	}
 
+	r.Set("phase_ApplyTransaction_wall_s", time.Since(tPhase).Seconds())
 	if doneUnits == int64(len(progs)) && doneBlocks == int64(len(units)) {
 		r.Exhaustive(true)
 	}
@@ -467,5 +471,6 @@ func main() {
 			return "not-reproduced"
 		})
 	}
+	pprof.StopCPUProfile()
 	r.Finish()
 }
